@@ -329,7 +329,7 @@ Section Loader.
   | MOk (sets : list aset).
 
   Definition mpd_sets (o : mpd_obs) : option (list aset) :=
-    match o with MOk s | MNoType s => Some s | _ => None end.
+    match o with MOk s | MNoType s | MNoDur s => Some s | _ => None end.
 
   Record asset := {
     a_mpds : list string;
@@ -429,7 +429,7 @@ Section Loader.
     match o with
     | MReadErr => Ok (a, c, Some "read MPD")
     | MBad => Ok (a, c, Some "bad MPD")
-    | MNoDur _ => Panic "loadAsset: invalid memory address or nil pointer dereference"   (* mpd.MediaPresentationDuration.String() *)
+    | MNoDur sets => load_mpd md apath mpdName sets a c       (* the duration text stays empty *)
     | MNoType sets => load_mpd md apath mpdName sets a c      (* a missing type attribute means "static" *)
     | MOk sets => load_mpd md apath mpdName sets a c
     end.
